@@ -51,15 +51,90 @@ def run(ctx, model):
         transcripts.run_c17(ctx, model)
     else:
         ctx.notes.append("driver-level sequence monitor not built yet: only the counter is checked against the implementation")
+    run_logix_histories(ctx, model)
     outs = model.batch(lines)
     for (stream, k, want), out in zip(pend, outs):
         if out != want:
             ctx.mismatch(stream, {"k": k}, want, out)
 
 
+def run_logix_histories(ctx, model):
+    """LogixDriver histories: reads and writes that expand into multi-service, fragmented and bit-write packets (several
+    bits of one integer in one call, duplicates), uploads; the counter is moved close to the wrap in some sessions.
+    Oracles: consecutive connected frames on the wire carry different counts; the reference target's duplicate
+    detection never fires."""
+    import re
+    import struct
+    import logixgen as lg
+    from props import logix as lx
+    from props import c02
+    rng = ctx.rng
+    for i in range(ctx.budget(25, 250)):
+        p = lg.gen_project(rng)
+        if rng.random() < 0.15:
+            p["micro800"] = True
+        sess = lx.Session(model, p, conn_large=rng.random() < 0.6)
+        if sess.open_error is not None:
+            sess.close()
+            continue
+        if rng.random() < 0.4:
+            for _ in range(65535 * rng.choice([1, 2]) - rng.randint(1, 60)):
+                next(sess.d._sequence)
+        sess.log()
+        n0 = len(sess.sock.frames)
+        calls = []
+        for _ in range(rng.choice([2, 4, 8])):
+            if rng.random() < 0.45:
+                tags = [r[0] for r in (lx.gen_read(rng, p) for _ in range(rng.choice([1, 2, 5, 20]))) if r]
+                if tags:
+                    calls.append(("read", tags))
+                    try:
+                        core.with_budget(120, sess.d.read, *tags)
+                    except BaseException as e:  # noqa
+                        if isinstance(e, (KeyboardInterrupt, SystemExit)):
+                            raise
+            else:
+                ws = [w for w in (c02.gen_write(rng, p) for _ in range(rng.choice([1, 2, 5, 12]))) if w]
+                # several bits of the same integers, and exact duplicates, in one call
+                for w in list(ws):
+                    if w[2][0] == "bit" and rng.random() < 0.8:
+                        base = w[0].rsplit(".", 1)[0]
+                        for b in rng.sample(range(8), rng.choice([1, 2, 3])):
+                            ws.append(("%s.%d" % (base, b), rng.random() < 0.5, w[2]))
+                if ws and rng.random() < 0.3:
+                    ws.append(rng.choice(ws))
+                if ws:
+                    calls.append(("write", [w[0] for w in ws]))
+                    try:
+                        core.with_budget(120, sess.d.write, *[(w[0], w[1]) for w in ws])
+                    except BaseException as e:  # noqa
+                        if isinstance(e, (KeyboardInterrupt, SystemExit)):
+                            raise
+        frames = [f for f in sess.sock.frames[n0:] if f[:2] == b"\x70\x00" and len(f) >= 46]
+        seqs = [struct.unpack_from("<H", f, 44)[0] for f in frames]
+        ctx.case("logix-histories", ("lh", i, len(frames)))
+        ctx.count("logix-history-frames", len(frames))
+        case = {"seed": ctx.seed, "index": i, "project": lx.project_summary(p), "micro800": p.get("micro800", False),
+                "calls": [(k, t[:8]) for k, t in calls]}
+        for j in range(1, len(seqs)):
+            if seqs[j] == seqs[j - 1]:
+                ctx.violation("sequence-count-repeated", dict(case, frame_index=j),
+                              "count %d on two consecutive connected messages (services %#x, %#x)" % (seqs[j], frames[j - 1][46], frames[j][46]))
+                break
+        log = sess.log()
+        texts = ["".join(chr(int(c)) for c in m.group(1).split()) for m in re.finditer(r"\(violation \(s([0-9 ]*)\)\)", log)]
+        if any("repeated on consecutive" in t for t in texts):
+            ctx.violation("target-saw-duplicate-sequence-count", case, "the reference target's duplicate detection fired")
+        sess.close()
+
+
 def replay(ctx, model, data):
     from pycomm3.util import cycle
     inp = data["input"]
+    if "k" not in inp:
+        c = core.Ctx("C17", data.get("tier", "quick"), data.get("seed", 0))
+        run(c, model)
+        return any(v["sig"] == data["sig"] for v in c.violations)
     g = cycle(65535, start=1)
     vals = [next(g) for _ in range(inp["k"] + 1)]
     print("draws", inp["k"] - 1, inp["k"], "=", vals[-2:], )
